@@ -31,7 +31,7 @@ def _task(args):
     try:
         t0 = time.perf_counter()
         trace = engine.gen(prop, seed, config, tier)
-        res = engine.run(trace, collect_states=True)
+        res = engine.run_isolated(trace, collect_states=True, cap_s=TASK_CAP_S)
         dt = time.perf_counter() - t0
         vs = [v for v in res["violations"] if v["prop"] == prop]
         out = {"seed": seed, "config": config, "digest": res["digest"], "violations": vs,
@@ -200,7 +200,16 @@ def signature(v):
     return findings.signature(v)
 
 
+def _exec_iso(trace):
+    try:
+        res = engine.run_isolated(trace, cap_s=TASK_CAP_S)
+        return {"digest": res["digest"], "violations": res["violations"]}
+    except BaseException as e:  # noqa
+        return {"error": repr(e)}
+
+
 def _fails_same(trace, prop, sig):
+    """In a genuinely fresh interpreter."""
     try:
         res = run_trace_fresh(trace)
     except Exception:
@@ -211,65 +220,88 @@ def _fails_same(trace, prop, sig):
     return None
 
 
-def ddmin_steps(trace, prop, sig, budget):
-    """Delta debugging over the step list, then operand simplification."""
-    t_end = time.time() + budget["seconds"]
-    calls = [0]
+class _Tester:
+    """Tests candidate traces in parallel, each in an isolated fork of a pristine worker."""
 
-    def test(tr):
-        if calls[0] >= budget["execs"] or time.time() > t_end:
+    def __init__(self, prop, sig, budget):
+        self.prop, self.sig = prop, sig
+        self.t_end = time.time() + budget["seconds"]
+        self.left = budget["execs"]
+        self.calls = 0
+        engine.get()
+        self.ex = cf.ProcessPoolExecutor(max_workers=min(16, os.cpu_count() or 4), mp_context=mp.get_context("fork"),
+                                         initializer=_worker_init)
+
+    def close(self):
+        self.ex.shutdown(wait=False, cancel_futures=True)
+
+    def _hit(self, res):
+        return "error" not in res and any(v["prop"] == self.prop and signature(v) == self.sig for v in res["violations"])
+
+    def first_failing(self, cands):
+        """-> index of the first candidate (in list order) that still fails the same way, or None."""
+        cands = list(cands)
+        if not cands or self.left <= 0 or time.time() > self.t_end:
             return None
-        calls[0] += 1
-        return _fails_same(tr, prop, sig)
-
-    cur = copy.deepcopy(trace)
-    # 1. drop fault steps one class at a time, then individually
-    def without(idxs):
-        t = copy.deepcopy(cur)
-        t["steps"] = [s for i, s in enumerate(cur["steps"]) if i not in idxs]
-        return t
-
-    fi = [i for i, s in enumerate(cur["steps"]) if "fault" in s]
-    if fi:
-        t = without(set(fi))
-        if test(t):
-            cur = t
-    # 2. ddmin over steps
-    n = 2
-    while len(cur["steps"]) >= 2:
-        steps = cur["steps"]
-        chunk = max(1, len(steps) // n)
-        reduced = False
-        for start in range(0, len(steps), chunk):
-            idxs = set(range(start, min(len(steps), start + chunk)))
-            t = without(idxs)
-            if not t["steps"]:
+        cands = cands[:self.left]
+        self.left -= len(cands)
+        self.calls += len(cands)
+        futs = [self.ex.submit(_exec_iso, c) for c in cands]
+        for i, f in enumerate(futs):
+            try:
+                if self._hit(f.result(timeout=TASK_CAP_S + 30)):
+                    for g in futs[i + 1:]:
+                        g.cancel()
+                    return i
+            except Exception:
                 continue
-            if test(t):
-                cur = t
+        return None
+
+
+def ddmin_steps(trace, prop, sig, budget):
+    """Delta debugging over the step list, then operand / input simplification."""
+    T = _Tester(prop, sig, budget)
+    try:
+        cur = copy.deepcopy(trace)
+
+        def without(idxs):
+            t = copy.deepcopy(cur)
+            t["steps"] = [s for i, s in enumerate(cur["steps"]) if i not in idxs]
+            return t
+
+        fi = [i for i, s in enumerate(cur["steps"]) if "fault" in s]
+        if fi and T.first_failing([without(set(fi))]) == 0:
+            cur = without(set(fi))
+        n = 2
+        while len(cur["steps"]) >= 2 and T.left > 0 and time.time() < T.t_end:
+            steps = cur["steps"]
+            chunk = max(1, len(steps) // n)
+            cands = []
+            for start in range(0, len(steps), chunk):
+                t = without(set(range(start, min(len(steps), start + chunk))))
+                if t["steps"]:
+                    cands.append(t)
+            k = T.first_failing(cands)
+            if k is not None:
+                cur = cands[k]
                 n = max(n - 1, 2)
-                reduced = True
+            else:
+                if chunk == 1:
+                    break
+                n = min(len(steps), n * 2)
+        if cur["kind"] == "mesh":
+            from . import meshworld as W
+        else:
+            from . import solverworld as W
+        for _ in range(6):
+            cands = list(W.simplifications(cur))[:48]
+            k = T.first_failing(cands)
+            if k is None:
                 break
-        if not reduced:
-            if chunk == 1:
-                break
-            n = min(len(steps), n * 2)
-        if calls[0] >= budget["execs"] or time.time() > t_end:
-            break
-    # 3. operand simplification (hook provided by the world module)
-    if cur["kind"] == "mesh":
-        from . import meshworld as W
-    else:
-        from . import solverworld as W
-    for cand in W.simplifications(cur):
-        r = test(cand)
-        if r:
-            cur = cand
-            # restart candidates from the simplified trace
-            for cand2 in W.simplifications(cur):
-                if test(cand2):
-                    cur = cand2
-    return cur, calls[0]
+            cur = cands[k]
+        return cur, T.calls
+    finally:
+        T.close()
 
 
 def report_violation(prop, rec, out=sys.stdout, minimise=True):
@@ -280,7 +312,7 @@ def report_violation(prop, rec, out=sys.stdout, minimise=True):
     execs = 0
     if minimise:
         try:
-            trace, execs = ddmin_steps(trace, prop, sig, {"execs": 150, "seconds": 120})
+            trace, execs = ddmin_steps(trace, prop, sig, {"execs": 600, "seconds": 120})
         except Exception as e:
             print(f"HARNESS-NOTE minimisation failed ({e!r}); reporting the unminimised trace", file=out)
             trace = rec["trace"]
